@@ -452,7 +452,8 @@ def set_features(pred, res, args):
     trs = {n[:3] for n in nets}
     f = {"predicate": pred, "nets": ",".join(c["nets"]) if c["nets"] else "empty", "nets_rect": "yes" if len(nets) == len(fams) * len(trs) else "no",
          "types": ",".join(c["types"]) if c["types"] else "empty", "mux": c["mux"], "mdns": c["mdns"], "ports": c["ports"],
-         "ifilter": c["ifilter"], "ipfilter": c["ipfilter"], "loopback": "yes" if c["loopback"] else "no", "case": res["id"]}
+         "ifilter": c["ifilter"], "ipfilter": c["ipfilter"], "loopback": "yes" if c["loopback"] else "no", "rewrite": c.get("rewrite", "none"),
+         "case": res["id"]}
     if pred == "Complete":
         f["ip"], f["transport"] = args[0], args[1]
         f["cls"] = next((a["cls"] for i in res["table"] for a in i["addrs"] if a["ip"] == args[0]), "?")
@@ -467,12 +468,13 @@ def set_features(pred, res, args):
 
 def set_check(work, binary, verdict, stats, tier, seed):
     rnd = random.Random(seed)
-    ncfg, ntab = 27648, 513
-    n_rich, n_rand = (3500, 2500) if tier == "quick" else (27648, 40000)
+    ncfg, ntab = 82944, 513
+    n_rich, n_rand = (5000, 3000) if tier == "quick" else (82944, 50000)
     rich = list(range(ncfg))
     if n_rich < ncfg:
         off = rnd.randrange(8)
         rich = [c for c in rich if c % 8 == off]     # a stride over the mixed-radix digits: every option of every dimension occurs
+        rich = sorted(rnd.sample(rich, n_rich))
     picks = rich + [rnd.randrange(ncfg) + ncfg * rnd.randrange(1, ntab) for _ in range(n_rand)]
     picks = sorted(set(picks))
     put(work, "GatherSetRun.tla", "---- MODULE GatherSetRun ----\nEXTENDS GatherSetGen\nPicksDef == <<%s>>\n====\n" % ", ".join(map(str, picks)))
